@@ -135,10 +135,16 @@ class YamlDocument(HierDictDocument):
     def _ret(self, _, value):
         return value
 
-    def _ret_number(self, _, value):
+    def _ret_number(self, cls, value):
         if isinstance(value, NON_NUMBER_TYPES):
             raise ValidationError(value)
         if value in (True, False):
+            return int(value)
+        if isinstance(value, float) and issubclass(cls, Integer):
+            # 2.0 and 2 are the same number on the wire: hand over an int, and
+            # nothing that is not an integer.
+            if not value.is_integer():
+                raise ValidationError(value)
             return int(value)
         return value
 
